@@ -182,6 +182,19 @@ pub fn last_panic() -> String {
     LAST_PANIC.with(|p| p.borrow().clone())
 }
 
+/// A panic message ("... at file:line") whose location is in the machinery's own source
+/// (relative path) rather than in the library (absolute path) or the standard library
+/// called by it: a defect of the machinery, never a verdict about the library.
+pub fn in_harness(msg: &str) -> bool {
+    match msg.rfind(" at ") {
+        Some(i) => {
+            let loc = &msg[i + 4..];
+            !loc.is_empty() && !std::path::Path::new(loc.split(':').next().unwrap_or("")).is_absolute()
+        }
+        None => false,
+    }
+}
+
 /// Run `f`, converting a panic into Err(message).
 pub fn guarded<T>(f: impl FnOnce() -> T) -> Result<T, String> {
     match catch_unwind(AssertUnwindSafe(f)) {
@@ -386,7 +399,7 @@ impl<'a, S: System> Bfs<'a, S> {
             });
             if let Err(msg) = res {
                 r.panics += 1;
-                out.violate(self.property, "panic-at-state", msg);
+                out.violate(self.property, if in_harness(&msg) { "harness-panic" } else { "panic-at-state" }, msg);
             }
             for v in out.violations.drain(..) {
                 r.viol.push((v, None));
@@ -413,7 +426,7 @@ impl<'a, S: System> Bfs<'a, S> {
                     }
                     Err(msg) => {
                         r.panics += 1;
-                        out.violate(self.property, "panic", msg);
+                        out.violate(self.property, if in_harness(&msg) { "harness-panic" } else { "panic" }, msg);
                     }
                 }
                 for v in out.violations.drain(..) {
@@ -558,7 +571,7 @@ impl<'a, S: System> Bfs<'a, S> {
                     .on_state(&self.cfg, &hist_ops, &mut st, &rebuild, &mut out);
             });
             if let Err(m) = res {
-                out.violate(self.property, "panic-at-state", m);
+                out.violate(self.property, if in_harness(&m) { "harness-panic" } else { "panic-at-state" }, m);
             }
             all.extend(out.violations);
         } else {
@@ -574,7 +587,7 @@ impl<'a, S: System> Bfs<'a, S> {
                 );
             });
             if let Err(m) = res {
-                out.violate(self.property, "panic", m);
+                out.violate(self.property, if in_harness(&m) { "harness-panic" } else { "panic" }, m);
             }
             all.extend(out.violations);
         }
